@@ -25,7 +25,7 @@ TRUSTED = ['Coq 8.16.1 kernel + vm_compute (no native_compute)',
            '(discrete outputs exact, floats within 4 ulp) and vs find_root under jit+vmap (tolerance, near-tie runs skipped)',
            'NaN is modelled as None: not-bracketed start (final mask), 0/0 in the Newton branch (unreachable for r_tol >= 0), not converged at the cap',
            'jax.lax.custom_root applies the tangent solve to the linearised residual; jax.grad of primitives is the derivative']
-ASSUMPTIONS = ['exact real arithmetic in theorems (no overflow/underflow; over R the sign test sign(fl)*sign(fh) < 0 is the product test; binary64 behaviour for residual magnitudes 1e-200..1e-300 is covered by the correspondence streams)',
+ASSUMPTIONS = ['exact real arithmetic in theorems (no overflow/underflow; the product in the Newton range test underflows for |f| < 1e-150: finding F7e; over R the sign test sign(fl)*sign(fh) < 0 is the product test; binary64 behaviour for residual magnitudes 1e-200..1e-300 is covered by the correspondence streams)',
                'f and f\' are total real functions; continuity of f only where stated (IVT); C17_ift assumes the root map is differentiable']
 RULE = ('inputs: seeded families (polynomials with 1-3 roots incl. multiple roots, sign(x-c)|x-c|^(1/2^k) steep power laws, rational sigmoid), '
         'brackets of both orientations and widths 1e-3..1e6, guesses inside/outside/at end points, settings max_iters in {5,20,50,100}, '
@@ -236,9 +236,28 @@ def gen_cases(ctx):
             b0, b1 = b1, b0
         x0 = c if r.random() < 0.6 else c + r.choice([0.25, -0.5, 0.3])
         cases.append(dict(kind='poly', P=P, x0=x0, b0=b0, b1=b1, mi=50, xt=1e-13, rt=0.0, stream='multiple-root'))
+    # an end point, or the clipped guess, that is not an exact root but meets the residual tolerance (0 < |f| <= r_tol)
+    for _ in range(ctx.n(14, 80)):
+        rho = r.uniform(-3, 3)
+        lead = r.choice([-1.0, 1.0]) * r.uniform(0.5, 3)
+        P = poly_from_roots([rho], lead)
+        rt = r.choice([1e-8, 1e-6, 1e-4])
+        near = rho + r.choice([-1, 1]) * r.uniform(0.1, 0.8) * rt / abs(lead)
+        far = rho + r.choice([-1, 1]) * r.uniform(0.5, 3)
+        m = r.randrange(3)
+        if m == 0:
+            b0, b1, x0 = near, far, guess(near, far)
+        elif m == 1:
+            b0, b1, x0 = far, near, guess(near, far)
+        else:
+            b0, b1 = rho - r.uniform(0.5, 3), rho + r.uniform(0.5, 3)
+            if r.random() < 0.4:
+                b0, b1 = b1, b0
+            x0 = near
+        cases.append(dict(kind='poly', P=P, x0=x0, b0=b0, b1=b1, mi=50, xt=r.choice([1e-13, 0.0]), rt=rt, stream='within-tolerance'))
     # residual magnitudes 1e-200 .. 1e-300: the product fl*fh underflows, the sign change must be detected from the signs
     for _ in range(ctx.n(14, 90)):
-        sc = 10.0 ** (-r.uniform(200, 300))
+        sc = 10.0 ** (-r.uniform(200, 285))          # below ~1e-290 intermediate values become subnormal, which XLA on CPU flushes to zero
         nr = r.choice([1, 1, 3])
         roots = [r.uniform(-3, 3) for _ in range(nr)]
         P = [sc * a for a in poly_from_roots(roots, r.choice([1.0, -1.0]) * r.uniform(0.5, 2))]
@@ -487,7 +506,9 @@ def concl(case, out, tag):
                         % (fl, fh, it, rs, dx), sig))
         else:
             if not (lo <= x <= hi):
-                bad.append(('result_in_bracket', 'x=%r outside [%r, %r]' % (x, lo, hi), None))
+                # residual magnitudes below 1e-150: the product in the loop's Newton range test underflows to 0, the test is disabled
+                under = max(abs(fl), abs(fh), abs(fc) if fc == fc else 0.0) < 1e-150
+                bad.append(('result_in_bracket', 'x=%r outside [%r, %r]' % (x, lo, hi), 'range_test_underflow' if under else None))
     if not nan and cv and it > 0:
         moved = abs(dx) <= math.ulp(x) if x != 0 else dx == 0
         if not (abs(dx) < case['xt'] or rs <= case['rt'] * (1 + 1e-9) or moved):
@@ -600,7 +621,7 @@ def correspondence(ctx, model_ok):
         hist[h] = hist.get(h, 0) + 1
     ctx.count('distinct_nontrivial', len(distinct))
     ctx.cov['outcomes'] = hist
-    ctx.cov['streams'] = {s: sum(1 for c in cases if c['stream'] == s) for s in ('random', 'endpoint', 'multiple-root', 'wide-monotone', 'tiny-residual', 'nan-insensitive')}
+    ctx.cov['streams'] = {s: sum(1 for c in cases if c['stream'] == s) for s in ('random', 'endpoint', 'multiple-root', 'wide-monotone', 'tiny-residual', 'nan-insensitive', 'within-tolerance')}
     # a few direct (un-vmapped) calls of the public API must agree with the batched ones
     r = ctx.rng('single')
     for i in r.sample(range(len(cases)), min(ctx.n(6, 25), len(cases))):
@@ -631,7 +652,7 @@ def correspondence(ctx, model_ok):
     r2 = ctx.rng('eager')
     ne = min(len(cases), ctx.n(70, 450))
     pick = set(r2.sample(range(len(cases)), ne))
-    pick |= {i for i, c in enumerate(cases) if c['stream'] in ('endpoint', 'multiple-root', 'tiny-residual', 'nan-insensitive')}
+    pick |= {i for i, c in enumerate(cases) if c['stream'] in ('endpoint', 'multiple-root', 'tiny-residual', 'nan-insensitive', 'within-tolerance')}
     ex = ['enc_result (let g := %s in rtsafe (feval g) (fdiff g) %s %s %s %d %s %s)'
           % (coq_fam(c['kind'], c['P']), C.cf(c['x0']), C.cf(c['b0']), C.cf(c['b1']), c['mi'], C.cf(c['xt']), C.cf(c['rt'])) for c in cases]
     res = C.coq_eval(IMPORTS, ex, 'C17', shard=150)
@@ -661,7 +682,9 @@ def correspondence(ctx, model_ok):
             else:
                 unstable += 1
         # (b) against rtsafe_ executed eagerly: discrete data exact, floats within 4 ulp
-        if i in pick:
+        if i in pick and 0 < abs(mF) < 1e-300:
+            ctx.count('subnormal_residual_eager_comparison_skipped')      # XLA flushes subnormals to zero, PrimFloat does not
+        elif i in pick:
             e = run_eager(c)
             ctx.count('evaluations')
             ok = (e[1] == mcv) and (e[2] == int(mit) or (why == 1 and c['kind'] == 'polyq')) and ((e[0] != e[0]) == (mx != mx))
@@ -720,6 +743,9 @@ def _witness_run(w):
 
 def finding_fails(ctx, f):
     w = f['witness']
+    if 'case' in w:
+        case = w['case']
+        return any(b[0] == w['clause'] for b in concl(case, run_compiled([case])[0], 'find_root jit+vmap'))
     x, cv, it, fl, fh = _witness_run(w)
     if w['sig'] in ('cap', 'zero_over_zero', 'underflow'):
         return (fl < 0) != (fh < 0) and fl != 0 and fh != 0 and x != x          # sign change, yet NaN
@@ -731,6 +757,8 @@ def finding_fails(ctx, f):
 def matches_finding(fl, f):
     c = fl.get('case') or {}
     w = f['witness']
+    if w['sig'] == 'range_test_underflow':
+        return fl.get('kind') == 'conclusion' and c.get('clause') == 'result_in_bracket' and c.get('sig') == 'range_test_underflow'
     if fl.get('kind') != 'conclusion' or c.get('clause') != 'sign_change_returns_root' or c.get('sig') != w['sig']:
         return False
     out = c.get('out') or [0, True, -1, 0, 0]
